@@ -354,7 +354,7 @@ def make_e_after_base_change(params, part, nparts):
             raise Violation('%s: names() is %s although lookup answers %s' % (what, a[5], a[0]), signature='C08:after-base-change:names')
         return True
 
-    def h(L: int, k: int, m: int, w: int, f: int):
+    def h(L: int, k: int, m: int, w: int, f: int = 0):
         cL = pick(L, 3) + 2
         ck = pick(k, 3) + 1
         assume(ck < cL)
